@@ -8,7 +8,7 @@ pub fn harness_dir() -> String {
 
 /// Returns the path of the evaluator binary for the configuration.
 pub fn build(name: &str, force_bits: Option<&str>, std_feature: bool, assertions: bool) -> Result<String, String> {
-    let target = format!("/verif/target/c19{}/{}", if std::env::var("DV_HARNESS").is_ok() { "-mut" } else { "" }, name);
+    let target = format!("{}/{}", std::env::var("DV_EVAL_TARGET").unwrap_or_else(|_| if std::env::var("DV_HARNESS").is_ok() { "/verif/target/c19-mut".to_string() } else { "/verif/target/c19".to_string() }), name);
     let mut rustflags = String::from("--cfg dashu_verif");
     if let Some(b) = force_bits {
         rustflags.push_str(&format!(" --cfg force_bits=\"{b}\""));
